@@ -132,7 +132,7 @@ CHECKS = {
               " In handler-early mode the caller half-closes either after the handler has returned or (close_first) right after its last message, so that the half-close queues up in the server behind the unread messages while the handler is still busy; the grid covers both for every (k,n)."
               " failed-open: the transport delivers a stream's opening envelope but reports the write as failed, so the caller never serves that stream; its handler answers with 0..6 messages and returns: bystanders and the probe still complete."),
         jobs=[dict(test="TestC11Grid", kind="enum", quick=1, thorough=1, shards=1), dict(test="TestC11", quick=3200, thorough=20000), dict(test="FuzzC11", kind="fuzz", quick=0, thorough=90)],
-        floors={"TestC11:mode=handler-early": 0.15, "TestC11:mode=caller-cancel": 0.15, "TestC11:mode=client-extra": 0.12, "TestC11:mode=server-extra": 0.12, "TestC11:send_fail=true": 0.012, "TestC11:early_trailer=true": 0.03, "TestC11:park_send=true": 0.01, "TestC11:close_first=true": 0.08, "TestC11:mode=failed-open": 0.1},
+        floors={"TestC11:mode=handler-early": 0.15, "TestC11:mode=caller-cancel": 0.15, "TestC11:mode=client-extra": 0.12, "TestC11:mode=server-extra": 0.12, "TestC11:send_fail=true": 0.012, "TestC11:early_trailer=true": 0.03, "TestC11:park_send=true": 0.01, "TestC11:close_first=true": 0.08, "TestC11:mode=failed-open": 0.1, "TestC11:queued_request=true": 0.03},
         assumptions=COMMON_ASSUMPTIONS + ["a caller that stops reading without cancelling is documented head-of-line blocking (the quantifier lists cancellation) and is not generated"],
     ),
     "C09": dict(
